@@ -214,6 +214,10 @@ def case_transition(rec, kind, depth=2, n_step=3, max_faults=2, fault_kinds=None
         j = int(out.pos)
         if j != 0 and (j not in env.good or j in env.bad_pos):
             problems.append(f"returned state index {j} was not produced by a fault-free step with a fault-free energy (faults {env.injected})")
+        if kind in ("static", "random") and j != 0 and ("conv" in env.injected or "nonrev" in env.injected):
+            # a Metropolis proposal is the END of the requested trajectory; after an integrator error there is none, and the
+            # partially integrated state is not a valid candidate
+            problems.append(f"Metropolis transition moved to the partially integrated state {j} after an integrator error (faults {env.injected})")
         if "conv" in env.injected and not stats.get("convergence_error"):
             problems.append("ConvergenceError inside the trajectory not recorded in stats['convergence_error']")
         if "nonrev" in env.injected and not stats.get("non_reversible_step"):
